@@ -551,7 +551,7 @@ pub fn run_hist(cfg: &RunCfg, mut src: StepSrc, opts: &HistOpts) -> RunResult {
     if let StepSrc::Gen(g) = &mut src {
         g.huge_hints = opts.huge_hints;
         g.alloc_faults = opts.alloc_faults;
-        g.late_writes = opts.focus == C08;
+        g.late_writes = opts.focus == C08 && !light();
     }
     let mut res = RunResult {
         end: RunEnd::Clean,
